@@ -125,7 +125,7 @@ Record ccfg := { c_gen : bool;      (* Converter (generated class hooks) vs Base
                  c_dv : bool;       (* detailed_validation *)
                  c_tuple : bool;    (* unstruct_strat = AS_TUPLE *)
                  c_forbid : bool;   (* Converter(forbid_extra_keys=...) *)
-                 c_recheck : bool; c_kw_last : bool   (* template flags from T1 *) }.
+                 c_recheck : bool; c_kw_last : bool; c_tuple_kw : bool   (* template flags from T1 *) }.
 
 (* the note of a failing element: its index, or the key it was filed under *)
 Definition key_note (k : val) : N :=
@@ -349,7 +349,7 @@ Fixpoint structure (n : nat) (t : ty) (o : val) : result val :=
           | Some cd =>
               let hs := fun fname v => match assoc (cd_types cd) fname with Some ft => structure n' ft v | None => Ok v end in
               let r :=
-                if c_tuple cfg then tpl_interp_tuple val noK hs (cd_fields cd) (seq_obj_of_val o)
+                if c_tuple cfg then tpl_interp_tuple val noK hs (c_tuple_kw cfg) (cd_fields cd) (seq_obj_of_val o)
                 else if c_gen cfg then
                   if c_dv cfg then tpl_detailed val noK (topt c) nov hs (c_recheck cfg) (cd_fields cd) (obj_of_val o)
                   else tpl_fast val noK (topt c) nov hs (c_kw_last cfg) (cd_fields cd) (obj_of_val o)
